@@ -90,9 +90,13 @@ def coq(e):
         return f"(Between {coq(e[1])} {coq(e[2])} {coq(e[3])})"
     if k == "tdim":      # time dimension  TIMESTAMP '2024-01-15' + <column e[2]> * INTERVAL 20 DAY  requested at granularity e[1]
         return f"(Trunc {TD_GRAN[e[1]]} (Add (Lit (VInt {TD_BASE_US})) (Mul (Col {e[2]}) (Lit (VInt {TD_STEP_US})))))"
+    if k == "tdim2":     # TIMESTAMP '2024-01-29' + <column e[2]> * INTERVAL 2 DAY  requested at granularity e[1]
+        return f"(Trunc {TD_GRAN[e[1]]} (Add (Lit (VInt {TD2_BASE_US})) (Mul (Col {e[2]}) (Lit (VInt {TD2_STEP_US})))))"
     raise ValueError(k)
 
 
+TD2_BASE_US = 1706486400000000     # 2024-01-29 00:00:00 (a Monday)
+TD2_STEP_US = 2 * 86400000000      # 2 days: 0, 1, 2 -> Jan 29, Jan 31, Feb 2 -- ONE ISO week in TWO months
 TD_BASE_US = 1705276800000000      # 2024-01-15 00:00:00
 TD_STEP_US = 20 * 86400000000     # 20 days
 TD_GRAN = {"day": "Day", "week": "Week", "month": "Month", "quarter": "Quarter", "year": "Year"}
